@@ -35,3 +35,10 @@ package leaderrotation
 //@   requires 0 <= k1 && k1 < n && 0 <= k2 && k2 < n && rr(v + k1, n) == rr(v + k2, n)
 //@   ensures [unique] k1 == k2
 //@   proof use mod_diff(v + k1, v + k2, n)
+
+// Leader schedules are functions of the view (and of the scheme's own configuration/state).
+//@ pure func leaderOf(lr LeaderRotation, v hotstuff.View) hotstuff.ID
+//@ interface LeaderRotation.GetLeader
+//@   ensures result == leaderOf(self, arg0)
+//@   preserves @std
+//@   ensures blockchain.storeskept() && core.cfgstable()
